@@ -143,6 +143,26 @@ def texts_generated(quick):
              "OBJECT = o\n OBJECT = o\n  OBJECT = o\n   k = ((1, 2), {3}) <m>\n  END_OBJECT\n END_OBJECT\nEND_OBJECT\n"]
     for t in extra:
         yield "extra", t
+    # every container tree with <= 3 (quick) / 4 nodes, duplicate names forced, every leaf a different value
+    from ..lib import gen
+    for n in range(1, (3 if quick else 4) + 1):
+        for f in gen.forests(n, ["a", "b"], ["g", "a"], [1]):
+            counter = [0]
+
+            def render(items, level):
+                lines = []
+                for k, v in items:
+                    ind = "  " * level
+                    if isinstance(v, dict):
+                        kw = "GROUP" if v["$"] == "group" else "OBJECT"
+                        lines.append("%s%s = %s" % (ind, kw, k))
+                        lines += render(v["items"], level + 1)
+                        lines.append("%sEND_%s = %s" % (ind, kw, k))
+                    else:
+                        counter[0] += 1
+                        lines.append("%s%s = %s" % (ind, k, counter[0] * 1.5))
+                return lines
+            yield "tree", "\n".join(render(f, 0) + ["END", ""])
 
 
 def corpus():
